@@ -593,11 +593,32 @@ func parseRaces(stderr string) []raceReport {
 		if i := strings.Index(b, "=================="); i >= 0 {
 			b = b[:i]
 		}
+		// the owner of an access is the innermost frame that belongs to the code
+		// under test or to the harness; the simulator is entered through
+		// gosim/seam.Enter, whose frame then comes first and marks the access as
+		// the harness's
 		var tops []string
 		lines := strings.Split(b, "\n")
 		for i, l := range lines {
-			if (strings.Contains(l, " at 0x") && strings.Contains(l, "by goroutine")) && i+1 < len(lines) {
-				tops = append(tops, strings.TrimSpace(lines[i+1]))
+			if strings.Contains(l, " at 0x") && strings.Contains(l, "by goroutine") {
+				owner := ""
+				for _, f := range lines[i+1:] {
+					f = strings.TrimSpace(f)
+					if f == "" {
+						break
+					}
+					if strings.HasPrefix(f, "/") || strings.HasPrefix(f, "<autogenerated>") {
+						continue // file:line of the frame above
+					}
+					// the runtime, the standard library and third-party packages
+					// act on behalf of whoever called them: walk down to the first
+					// frame of the code under test or of the harness
+					if strings.HasPrefix(f, "github.com/tsuna/gohbase") || strings.HasPrefix(f, "gosim/") {
+						owner = f
+						break
+					}
+				}
+				tops = append(tops, owner)
 			}
 		}
 		inRepo := func(f string) bool {
